@@ -103,15 +103,16 @@ def spmc_head_protocol(ctx):
         newv = simplify(trace_operand(f, f.node(cs[0])["args"][2]))
         alts = [simplify(a) for a in newv[2]] if newv[0] == "phi" else [newv]
         lock_alts = [a for a in alts if _locks(a)]
-        pack_alts = [a for a in alts if a[0] == "call" and (a[2] or "").endswith("BlockPtr::pack")]
+        psites = shared.packed_word_sites(f)
+        pack_alts = [a for a in alts if not _locks(a) and shared.is_packed_value(f, a, psites)]
         shape = len(alts) == 2 and len(lock_alts) == 1 and len(pack_alts) == 1
         ctx.ob("R-ENUM", fid, fn + "/new-head-is-pack-or-lock", shape, "the value %s CASes into head is either pack(block, next id) or the old head with the transition-lock bit" % fn if shape else
                "%s CASes %s into head (expected: pack(..) on the in-block path, head | 1<<63 on the block-end path)" % (fn, fmt_origin(newv)[:200]), f.where(cs[0]))
         if not shape: continue
         # which edge decides lock vs pack: the definition points of the two alternatives
-        packs = sorted(an.sites(f, PACK, "must"))
         pre = an.reach(f, [Point(0, 0)], blocked=set(cs))
-        pre_packs = [p0 for p0 in packs if p0 in pre]
+        pre_pk = [(p0, a0, a1) for (p0, a0, a1) in psites if p0 in pre]
+        pre_packs = [p0 for p0, _, _ in pre_pk]
         if fn in ("pop", "local_pop"):
             last = lambda a: cmp_matches(a, "Eq", lambda o: _unpack_field(o, 1), lambda o: _strip(o)[0] == "const" and "BLOCK_MASK" in (_strip(o)[1] or "") or is_const(31)(o))
             notlast = lambda a: cmp_matches(a, "Ne", lambda o: _unpack_field(o, 1), lambda o: _strip(o)[0] == "const")
@@ -124,10 +125,10 @@ def spmc_head_protocol(ctx):
         # (1) commit arithmetic of the in-block path
         if fn in ("pop", "local_pop"):
             okp = False
-            for p0 in pre_packs:
-                a0, a1 = [simplify(trace_operand(f, x)) for x in f.node(p0)["args"][:2]]
-                b = _strip(a1)
-                okp = _unpack_field(a0, 0) and b[0] == "bin" and b[1].startswith("Add") and _unpack_field(b[2], 1) and is_const(1)(simplify(b[3]))
+            for p0, x0, x1 in pre_pk:
+                for a0, a1 in ((x0, x1), (x1, x0)):
+                    b = _strip(a1)
+                    if (_unpack_field(a0, 0) or "BlockPtr::unpack" in fmt_origin(a0)) and b[0] == "bin" and b[1].startswith("Add") and _unpack_field(b[2], 1) and is_const(1)(simplify(b[3])): okp = True
             ctx.ob("R-ENUM", fid, fn + "/claim-advances-by-one", okp, "the in-block claim CASes head to pack(block, id + 1) of the (block, id) it unpacked: the next taker starts at the next slot" if okp else
                    "%s does not CAS head to pack(block, id + 1): the slot it reads is claimed again by the next taker (a task handed out twice) or a slot is skipped (a task never handed out)" % fn,
                    f.where(pre_packs[0]) if pre_packs else f.where())
@@ -208,7 +209,8 @@ def spmc_head_protocol(ctx):
         post = an.reach(f, [q for c in cs for q in an.after(f, c)])
         stores = [x for x in sorted(an.sites(f, Call(A("store"), on=HEAD, transitive=False), "must")) if x in post]
         nxt = [x for x in stores if is_call_result(A("load"), Q + "::BlockNode.next", f)(simplify(trace_operand(f, f.node(x)["args"][1])))]
-        pk = [x for x in stores if simplify(trace_operand(f, f.node(x)["args"][1]))[0] == "call" and (simplify(trace_operand(f, f.node(x)["args"][1]))[2] or "").endswith("BlockPtr::pack")]
+        psites = shared.packed_word_sites(f)
+        pk = [x for x in stores if shared.is_packed_value(f, trace_operand(f, f.node(x)["args"][1]), psites)]
         ends = [simplify(trace_operand(f, f.node(pt)["args"][2])) for pt in sorted(an.sites(f, Call(re.escape(Q) + "::BlockNode::copy_to_bulk", transitive=False), "must"))]
         end_alts = set()
         for e in ends:
@@ -226,7 +228,11 @@ def spmc_head_protocol(ctx):
                         rule="R-ENUM", pred_label="edge `(end & BLOCK_MASK) == 0`")
             ctx.guarded(fid, lambda g: pk, unaligned, "bulk_pop/same-block-iff-range-ends-inside", "after a locked claim head stays in the block (pack(block, end id)) only when the range ends inside it",
                         rule="R-ENUM", pred_label="edge `(end & BLOCK_MASK) != 0`")
-            okp = all(masked_end(simplify(trace_operand(f, f.term(simplify(trace_operand(f, f.node(x)["args"][1]))[1])["args"][1]))) for x in pk)
+            def idx_part(x):
+                v = shared._sv(trace_operand(f, f.node(x)["args"][1]))
+                if v[0] == "call": return [simplify(trace_operand(f, a)) for a in f.term(v[1])["args"][:2]]
+                return [simplify(v[2]), simplify(v[3])]
+            okp = all(any(masked_end(y) for y in idx_part(x)) for x in pk)
             ctx.ob("R-ENUM", fid, "bulk_pop/same-block-head-is-range-end", okp, "the in-block head stored after a locked claim is pack(block, end & BLOCK_MASK): the next taker starts where the copied range ended" if okp else
                    "bulk_pop stores a head that is not the end of the range it copied", f.where(pk[0]))
     # push: a new block is linked exactly when the next index is block-aligned, and then both links are written
@@ -480,9 +486,28 @@ def check(ctx):
                "%s drops a task value on a normal path (a coroutine is silently destroyed)" % fid, f.where(drops[0] if drops else None), nontrivial=True)
     # steal_into: every element of the batch goes to push_back or is returned
     SI = Q + "::Steal::steal_into"
-    ctx.must_follow(SI, None, Call(re.escape(Q) + "::Local::push_back"), "steal/rest-moved", "every remaining element of a stolen batch is moved into the stealer's queue",
-                    edge=variant_of_call(r".*IntoIter.*::next|.*Iterator.*::next", "Some"), edge_label="edge `iter.next()` is Some", exits=lambda g: set(g.ret_points()) |
-                    ctx.an.sites(g, Call(r".*::next", transitive=False), "may"))
+    fsi = ctx.prog.fn(SI)
+    PB = Call(re.escape(Q) + "::Local::push_back")
+    if fsi is not None and ctx.edges(fsi, variant_of_call(r".*IntoIter.*::next|.*Iterator.*::next", "Some")):
+        ctx.must_follow(SI, None, PB, "steal/rest-moved", "every remaining element of a stolen batch is moved into the stealer's queue",
+                        edge=variant_of_call(r".*IntoIter.*::next|.*Iterator.*::next", "Some"), edge_label="edge `iter.next()` is Some", exits=lambda g: set(g.ret_points()) |
+                        ctx.an.sites(g, Call(r".*::next", transitive=False), "may"))
+    elif fsi is not None:
+        # the same walk written with a combinator: `v.into_iter().for_each(|t| dst.push_back(t))`
+        okc = False; site = None
+        for pt in fsi.points():
+            if fsi.is_term(pt) and fsi.node(pt)["t"] == "call" and re.search(r"Iterator::for_each$", callee_name(fsi.node(pt)) or ""):
+                site = pt
+                for cid in closure_args(fsi, fsi.node(pt)):
+                    c = ctx.prog.fn(norm(cid))
+                    if c is not None and ctx.an.must(c, PB): okc = True
+        okc = okc and site is not None and ctx.an.must(fsi, Call(r".*Iterator::for_each", transitive=False)) is not None
+        r0 = ctx.an.reach(fsi, [Point(0, 0)], blocked={site} if site else set())
+        popped = ctx.an.sites(fsi, Call(re.escape(Q) + "::Queue::bulk_pop", transitive=False), "must")
+        after_pop = ctx.an.reach(fsi, [q for s0 in popped for q in ctx.an.after(fsi, s0)], blocked={site} if site else set())
+        okc = okc and not any(x in after_pop for x in fsi.ret_points())
+        ctx.ob("R-PAIR", SI, "steal/rest-moved", okc, "every remaining element of a stolen batch is moved into the stealer's queue (for_each with a closure that always calls push_back)" if okc else
+               "steal_into neither loops over the stolen batch nor hands it to a for_each whose closure pushes every element into the stealer's queue", fsi.where(site) if site else fsi.where())
     ctx.order(SI, Call(re.escape(Q) + "::Queue::bulk_pop"), Call(re.escape(Q) + "::Local::push_back"), "steal/claim-then-move", "tasks are moved only after they were claimed from the victim")
     # local side ops take &mut self (single owner at the type level) — checked through the confinement chain in may
     if ctx.prog.fn("may::scheduler::Scheduler::schedule_with_id") is not None:
